@@ -114,6 +114,18 @@ def run_case(case, acc):
                     acc.violation('block-count', 'blocks %d' % len(rep.blocks), case)
                 if rep.syndromes_ok and rep.payload != data:
                     acc.violation('payload', 'valid blocks but payload differs from content', case)
+                # "data codewords first": every codeword in a data position of Table 9 is data - segments, terminator or padding
+                for p in rep.problems:
+                    if C.classify_problem(p) == 'stream':
+                        acc.violation('data-codewords/%s-%s' % (v, lvl), 'data positions of the blocks do not hold a data stream: %s' % p[:120], case)
+                if rep.after is not None and rep.data_bits is not None:
+                    start = len(rep.data_bits) - len(rep.after)
+                    pad = rep.after[(-start) % 8:]
+                    words = [int(''.join(map(str, pad[i:i + 8])), 2) for i in range(0, len(pad) - 7, 8)]
+                    odd = [w for w in words if w not in (0x00, 0xec, 0x11)]
+                    if odd:
+                        acc.violation('data-codewords/%s-%s' % (v, lvl), 'codeword %#04x in a data position after the terminator is neither data nor padding '
+                                      '(%d data codewords expected by Table 9)' % (odd[0], sum(d for _, d in T.blocks(v, lvl))), case)
         # the same cell with the library's defaults (error-level boosting on, automatic mask): the blocks of the level that is
         # announced in the format information must be valid codewords as well
         if T.is_micro(v) or v <= 3:
